@@ -10,6 +10,27 @@ func init() {
 	vxRegister("H03t2", func() { h03t(2) })
 	vxRegister("H03t3", func() { h03t(3) })
 	vxRegister("H03t4", func() { h03t(4) })
+	vxRegister("H03tmpl", H03tmpl)
+}
+
+// H03tmpl: templates that drive the hyphen / newline state machine, around 3 symbolic bytes.
+func H03tmpl() {
+	k := vxChoice(5)
+	s := vxBytes(3)
+	var in []byte
+	switch k {
+	case 0:
+		in = append(append([]byte("ab-\n"), s[:2]...), append([]byte("\n"), s[2:]...)...)
+	case 1:
+		in = append([]byte("ab-\n\n"), s...)
+	case 2:
+		in = append(append(append([]byte{}, s[0], '-', '\n', s[1], '\n'), s[2]), " x\ny"...)
+	case 3:
+		in = append(append([]byte("Copyright 2020 x\nab-\ncd\n"), s...), "\nz"...)
+	default:
+		in = append(append([]byte("a-\nb-\nc\n"), s...), " q\n"...)
+	}
+	h03tIn(in)
 }
 
 func H03t1() { h03t(1) }
@@ -18,8 +39,9 @@ func H03t3() { h03t(3) }
 func H03t4() { h03t(4) }
 
 // h03t: tokenizer post-conditions on n symbolic bytes (L2 of DESIGN.md).
-func h03t(n int) {
-	in := vxBytes(n)
+func h03t(n int) { h03tIn(vxBytes(n)) }
+
+func h03tIn(in []byte) {
 	nl := 0
 	for _, b := range in {
 		if b == '\n' {
